@@ -40,6 +40,21 @@ theorem CMap.get_clear_of_none {V} (c : CMap V) {s : Nat} (h : c.get s = none) (
   · subst ht; rw [CMap.get_clear_self, h]
   · exact CMap.get_clear_ne c ht
 
+theorem nextOcc_none {V} (c : CMap V) (i n : Nat) (h : nextOcc c i n = none) :
+    ∀ t, i ≤ t → t < n → CMap.get c t = none := by
+  induction c with
+  | nil => intros; rfl
+  | cons q c ih =>
+    obtain ⟨w, e2⟩ := q
+    simp only [nextOcc] at h
+    by_cases hw : i ≤ w ∧ w < n
+    · rw [if_pos hw] at h; cases h3 : nextOcc c i n <;> rw [h3] at h <;> simp at h
+    · rw [if_neg hw] at h
+      intro t h1 h2
+      have : ¬ w = t := by omega
+      simp only [CMap.get, this, if_false]
+      exact ih h t h1 h2
+
 theorem nextOcc_some {V} (c : CMap V) (i n s : Nat) (h : nextOcc c i n = some s) :
     i ≤ s ∧ s < n ∧ (∃ e, c.get s = some e) ∧ ∀ t, i ≤ t → t < s → c.get t = none := by
   induction c generalizing s with
@@ -56,21 +71,7 @@ theorem nextOcc_some {V} (c : CMap V) (i n s : Nat) (h : nextOcc c i n = some s)
         intro t h1 h2
         have hne : ¬ u = t := by omega
         simp only [CMap.get, hne, if_false]
-        -- no occupied slot of `c` in range at all
-        have : ∀ t, i ≤ t → t < n → c.get t = none := by
-          clear ih h1 h2 hne
-          induction c with
-          | nil => intros; rfl
-          | cons q c ih2 =>
-            obtain ⟨w, e2⟩ := q
-            simp only [nextOcc] at hr
-            by_cases hw : i ≤ w ∧ w < n
-            · rw [if_pos hw] at hr; cases h3 : nextOcc c i n <;> rw [h3] at hr <;> simp at hr
-            · rw [if_neg hw] at hr
-              intro t h1 h2
-              have : ¬ w = t := by omega
-              simp only [CMap.get, this, if_false]
-              exact ih2 hr t h1 h2
+        have := nextOcc_none c i n hr
         exact this t h1 (by omega)
       | some b =>
         rw [hr] at h; simp at h
@@ -100,19 +101,1129 @@ theorem nextOcc_some {V} (c : CMap V) (i n s : Nat) (h : nextOcc c i n = some s)
         have : ¬ u = t := by omega
         simp only [CMap.get, this, if_false]; exact h4 t ht1 ht2
 
-theorem nextOcc_none {V} (c : CMap V) (i n : Nat) (h : nextOcc c i n = none) :
-    ∀ t, i ≤ t → t < n → c.get t = none := by
-  induction c with
-  | nil => intros; rfl
-  | cons q c ih =>
-    obtain ⟨w, e2⟩ := q
-    simp only [nextOcc] at h
-    by_cases hw : i ≤ w ∧ w < n
-    · rw [if_pos hw] at h; cases h3 : nextOcc c i n <;> rw [h3] at h <;> simp at h
-    · rw [if_neg hw] at h
-      intro t h1 h2
-      have : ¬ w = t := by omega
-      simp only [CMap.get, this, if_false]
-      exact ih h t h1 h2
+
+/-! ### the `Option` monoid -/
+
+section Monoid
+universe u
+variable {V : Type u} (op : V → V → V)
+
+@[simp] theorem omerge_none_left (x : Option V) : omerge op none x = x := by cases x <;> rfl
+@[simp] theorem omerge_none_right (x : Option V) : omerge op x none = x := by cases x <;> rfl
+@[simp] theorem omerge_some_some (a b : V) : omerge op (some a) (some b) = some (op a b) := rfl
+
+theorem omerge_comm [Std.Commutative op] (x y : Option V) : omerge op x y = omerge op y x := by
+  cases x <;> cases y <;> simp
+  exact Std.Commutative.comm _ _
+
+theorem omerge_assoc [Std.Associative op] (x y z : Option V) :
+    omerge op (omerge op x y) z = omerge op x (omerge op y z) := by
+  cases x <;> cases y <;> cases z <;> simp
+  exact Std.Associative.assoc _ _ _
+
+instance [Std.Associative op] : Std.Associative (omerge op) := ⟨omerge_assoc op⟩
+instance [Std.Commutative op] : Std.Commutative (omerge op) := ⟨omerge_comm op⟩
+
+@[simp] theorem total_nil : total op ([] : List V) = none := rfl
+@[simp] theorem total_cons (a : V) (l : List V) : total op (a :: l) = omerge op (some a) (total op l) := rfl
+
+theorem total_append [Std.Associative op] (l₁ l₂ : List V) :
+    total op (l₁ ++ l₂) = omerge op (total op l₁) (total op l₂) := by
+  induction l₁ with
+  | nil => simp
+  | cons a l ih => simp [ih, omerge_assoc]
+
+theorem total_perm [Std.Associative op] [Std.Commutative op] {l₁ l₂ : List V} (h : l₁.Perm l₂) :
+    total op l₁ = total op l₂ := by
+  induction h with
+  | nil => rfl
+  | cons a _ ih => simp [ih]
+  | swap a b l => simp only [total_cons]; ac_rfl
+  | trans _ _ ih₁ ih₂ => exact ih₁.trans ih₂
+
+theorem total_eq_none {l : List V} (h : total op l = none) : l = [] := by
+  cases l with
+  | nil => rfl
+  | cons a l => cases ht : total op l <;> simp [ht] at h
+
+@[simp] theorem ototal_nil : ototal op ([] : List (Option V)) = none := rfl
+@[simp] theorem ototal_cons (a : Option V) (l : List (Option V)) :
+    ototal op (a :: l) = omerge op a (ototal op l) := rfl
+
+end Monoid
+
+@[simp] theorem valsOf_nil {V} (k : Key) : valsOf k ([] : List (Key × V)) = [] := rfl
+theorem valsOf_cons {V} (k k' : Key) (v : V) (l : List (Key × V)) :
+    valsOf k ((k', v) :: l) = if k' = k then v :: valsOf k l else valsOf k l := by
+  by_cases h : k' = k <;> simp [valsOf, List.filter, h]
+theorem valsOf_append {V} (k : Key) (l₁ l₂ : List (Key × V)) :
+    valsOf k (l₁ ++ l₂) = valsOf k l₁ ++ valsOf k l₂ := by
+  simp [valsOf]
+theorem valsOf_perm {V} (k : Key) {l₁ l₂ : List (Key × V)} (h : l₁.Perm l₂) :
+    (valsOf k l₁).Perm (valsOf k l₂) := (h.filter _).map _
+
+@[simp] theorem msgValsOf_nil {V} (k : Key) : msgValsOf k ([] : List (Msg V)) = [] := rfl
+theorem msgValsOf_cons {V} (k : Key) (m : Msg V) (l : List (Msg V)) :
+    msgValsOf k (m :: l) = if m.key = k then m.val :: msgValsOf k l else msgValsOf k l := by
+  by_cases h : m.key = k <;> simp [msgValsOf, List.filter, h]
+theorem msgValsOf_append {V} (k : Key) (l₁ l₂ : List (Msg V)) :
+    msgValsOf k (l₁ ++ l₂) = msgValsOf k l₁ ++ msgValsOf k l₂ := by
+  simp [msgValsOf]
+
+/-- `if c then some v else none` as a value held for `k` -/
+def onKey {V} (k k' : Key) (v : V) : Option V := if k' = k then some v else none
+
+theorem total_valsOf_cons {V} (op : V → V → V) (k k' : Key) (v : V) (l : List (Key × V)) :
+    total op (valsOf k ((k', v) :: l)) = omerge op (onKey k k' v) (total op (valsOf k l)) := by
+  rw [valsOf_cons]; unfold onKey; by_cases h : k' = k <;> simp [h]
+
+theorem total_msgValsOf_cons {V} (op : V → V → V) (k : Key) (m : Msg V) (l : List (Msg V)) :
+    total op (msgValsOf k (m :: l)) = omerge op (onKey k m.key m.val) (total op (msgValsOf k l)) := by
+  rw [msgValsOf_cons]; unfold onKey; by_cases h : m.key = k <;> simp [h]
+
+/-! ### well-formed slot array: an entry sits in the slot of its key -/
+
+def WF {V} (n : Nat) (c : CMap V) : Prop := ∀ t k v, c.get t = some (k, v) → k % n = t
+
+theorem WF.nil {V} (n : Nat) : WF n ([] : CMap V) := by intro t k v h; simp [CMap.get] at h
+
+theorem WF.clear {V} {n : Nat} {c : CMap V} (h : WF n c) (s : Nat) : WF n (c.clear s) := by
+  intro t k v ht
+  by_cases hts : t = s
+  · subst hts; rw [CMap.get_clear_self] at ht; cases ht
+  · rw [CMap.get_clear_ne c hts] at ht; exact h t k v ht
+
+theorem WF.set {V} {n : Nat} {c : CMap V} (h : WF n c) (k : Key) (w : V) : WF n (c.set (k % n) (k, w)) := by
+  intro t k' v ht
+  by_cases hts : t = k % n
+  · subst hts; rw [CMap.get_set_self] at ht; cases ht; rfl
+  · rw [CMap.get_set_ne c _ hts] at ht; exact h t k' v ht
+
+theorem cachedOf_set_eq {V} (n : Nat) (c : CMap V) (s k key : Nat) (w : V) (h : key % n = s) :
+    cachedOf n (c.set s (k, w)) key = onKey key k w := by
+  unfold cachedOf onKey; rw [h, CMap.get_set_self]
+
+theorem cachedOf_set_ne {V} (n : Nat) (c : CMap V) (s key : Nat) (e : Key × V) (h : key % n ≠ s) :
+    cachedOf n (c.set s e) key = cachedOf n c key := by
+  unfold cachedOf; rw [CMap.get_set_ne c e h]
+
+theorem cachedOf_clear_eq {V} (n : Nat) (c : CMap V) (s key : Nat) (h : key % n = s) :
+    cachedOf n (c.clear s) key = none := by
+  unfold cachedOf; rw [h, CMap.get_clear_self]
+
+theorem cachedOf_clear_ne {V} (n : Nat) (c : CMap V) (s key : Nat) (h : key % n ≠ s) :
+    cachedOf n (c.clear s) key = cachedOf n c key := by
+  unfold cachedOf; rw [CMap.get_clear_ne c h]
+
+theorem cachedOf_of_get {V} (n : Nat) (c : CMap V) (key k : Nat) (v : V) (h : c.get (key % n) = some (k, v)) :
+    cachedOf n c key = onKey key k v := by
+  unfold cachedOf onKey; rw [h]
+
+theorem cachedOf_of_none {V} (n : Nat) (c : CMap V) (key : Nat) (h : c.get (key % n) = none) :
+    cachedOf n c key = none := by
+  unfold cachedOf; rw [h]
+
+theorem onKey_ne {V} {k k' : Key} (v : V) (h : k' ≠ k) : onKey k k' v = none := by simp [onKey, h]
+theorem onKey_self {V} (k : Key) (v : V) : onKey k k v = some v := by simp [onKey]
+
+
+/-! ### effect of the loop heads on what is held for a key -/
+
+section Held
+variable {V : Type} (cfg : Cfg V)
+
+theorem enter_held [Std.Associative cfg.op] [Std.Commutative cfg.op] (c : CMap V) (k : Key) (w : V) (key : Key) :
+    omerge cfg.op (cachedOf cfg.nslots (enter cfg c k w).1 key) (frameHeld cfg.op key (enter cfg c k w).2)
+      = omerge cfg.op (cachedOf cfg.nslots (c.clear (slot cfg k)) key) (onKey key k w) := by
+  unfold enter
+  by_cases hf : cfg.full w = true
+  · simp [hf, frameHeld, phaseHeld, onKey]
+  · rw [if_neg hf]
+    by_cases hs : key % cfg.nslots = slot cfg k
+    · rw [cachedOf_set_eq _ _ _ _ _ _ hs, cachedOf_clear_eq _ _ _ _ hs]; simp [frameHeld, phaseHeld]
+    · rw [cachedOf_set_ne _ _ _ _ _ hs, cachedOf_clear_ne _ _ _ _ hs]
+      have : k ≠ key := by intro h; subst h; exact hs rfl
+      simp [frameHeld, phaseHeld, onKey_ne _ this]
+
+theorem enter_wf (c : CMap V) (k : Key) (w : V) (h : WF cfg.nslots c) : WF cfg.nslots (enter cfg c k w).1 := by
+  unfold enter
+  by_cases hf : cfg.full w = true
+  · simp only [hf, if_true]; exact h.clear _
+  · rw [if_neg hf]; exact h.set k w
+
+theorem insLoop_held [Std.Associative cfg.op] [Std.Commutative cfg.op] (c : CMap V) (hwf : WF cfg.nslots c) (k : Key) (v : V) (key : Key) :
+    omerge cfg.op (cachedOf cfg.nslots (insLoop cfg c k v).1 key) (frameHeld cfg.op key (insLoop cfg c k v).2)
+      = omerge cfg.op (cachedOf cfg.nslots c key) (onKey key k v) := by
+  unfold insLoop
+  cases hg : c.get (slot cfg k) with
+  | none =>
+    simp only []
+    rw [enter_held]
+    congr 1
+    unfold cachedOf; rw [CMap.get_clear_of_none c hg]
+  | some e =>
+    obtain ⟨k', v'⟩ := e
+    simp only []
+    by_cases hk : k' = k
+    · subst hk
+      simp only [if_true]
+      rw [enter_held]
+      by_cases hs : key % cfg.nslots = slot cfg k'
+      · rw [cachedOf_clear_eq _ _ _ _ hs, cachedOf_of_get _ _ _ _ _ (hs ▸ hg)]
+        unfold onKey; by_cases hkk : k' = key <;> simp [hkk]
+      · rw [cachedOf_clear_ne _ _ _ _ hs]
+        have : k' ≠ key := by intro h; subst h; exact hs rfl
+        simp [onKey_ne _ this]
+    · simp only [hk, if_false]
+      by_cases hs : key % cfg.nslots = slot cfg k
+      · rw [cachedOf_clear_eq _ _ _ _ hs, cachedOf_of_get _ _ _ _ _ (hs ▸ hg)]
+        simp only [frameHeld, phaseHeld, omerge_none_left]
+        show omerge cfg.op (onKey key k v) (onKey key k' v') = _
+        exact omerge_comm _ _ _
+      · rw [cachedOf_clear_ne _ _ _ _ hs]
+        have h1 : k ≠ key := by intro h; subst h; exact hs rfl
+        have h2 : k' ≠ key := by
+          intro h; subst h
+          exact hs (hwf _ _ _ hg)
+        simp only [frameHeld, phaseHeld]
+        show omerge cfg.op _ (omerge cfg.op (onKey key k v) (onKey key k' v')) = _
+        simp [onKey_ne _ h1, onKey_ne _ h2]
+
+theorem insLoop_wf (c : CMap V) (k : Key) (v : V) (h : WF cfg.nslots c) : WF cfg.nslots (insLoop cfg c k v).1 := by
+  unfold insLoop
+  cases hg : c.get (slot cfg k) with
+  | none => exact enter_wf cfg c k v h
+  | some e =>
+    obtain ⟨k', v'⟩ := e
+    simp only []
+    by_cases hk : k' = k
+    · simp only [hk, if_true]; exact enter_wf cfg c k _ h
+    · simp only [hk, if_false]; exact h.clear _
+
+theorem fallLoop_held [Std.Associative cfg.op] [Std.Commutative cfg.op] (c : CMap V) (hwf : WF cfg.nslots c) (i : Nat) (key : Key) :
+    omerge cfg.op (cachedOf cfg.nslots (fallLoop cfg c i).1 key) (frameHeld cfg.op key (fallLoop cfg c i).2)
+      = cachedOf cfg.nslots c key := by
+  unfold fallLoop
+  cases hn : nextOcc c i cfg.nslots with
+  | none => simp [frameHeld, phaseHeld]
+  | some j =>
+    simp only []
+    cases hg : c.get j with
+    | none => simp [frameHeld, phaseHeld]
+    | some e =>
+      obtain ⟨k, v⟩ := e
+      simp only []
+      have hkj : k % cfg.nslots = j := hwf _ _ _ hg
+      by_cases hs : key % cfg.nslots = j
+      · rw [cachedOf_clear_eq _ _ _ _ hs, cachedOf_of_get _ _ _ _ _ (hs ▸ hg)]
+        simp [frameHeld, phaseHeld, onKey]
+      · rw [cachedOf_clear_ne _ _ _ _ hs]
+        have : k ≠ key := by intro h; subst h; exact hs hkj
+        simp [frameHeld, phaseHeld, this]
+
+theorem fallLoop_wf (c : CMap V) (i : Nat) (h : WF cfg.nslots c) : WF cfg.nslots (fallLoop cfg c i).1 := by
+  unfold fallLoop
+  cases hn : nextOcc c i cfg.nslots with
+  | none => exact h
+  | some j =>
+    simp only []
+    cases hg : c.get j with
+    | none => exact h
+    | some e => obtain ⟨k, v⟩ := e; exact h.clear _
+
+end Held
+
+
+/-! ### effect of one transition -/
+
+/-- what a label hands to the rank for key `k` -/
+def recvOf {V} (k : Key) : Label V → Option V
+  | .ins k' v => onKey k k' v
+  | _ => none
+
+/-- what a label takes away from the rank for key `k` (the packed message) -/
+def emitOf {V} (k : Key) (s : St V) : Label V → Option V
+  | .pack => match pending s with
+    | some m => onKey k m.key m.val
+    | none => none
+  | _ => none
+
+section Step
+variable {V : Type} (cfg : Cfg V)
+
+theorem held_mk (c : CMap V) (r : Bool) (st : List (Frame V)) (key : Key) :
+    held cfg { cache := c, reg := r, stack := st } key
+      = omerge cfg.op (cachedOf cfg.nslots c key) (stackHeld cfg.op key st) := rfl
+
+theorem frameHeld_setPhase_sent [Std.Associative cfg.op] [Std.Commutative cfg.op] (f : Frame V) (m : Msg V) (key : Key) (h : f.phase = .pend m) :
+    omerge cfg.op (frameHeld cfg.op key (f.setPhase .sent)) (onKey key m.key m.val) = frameHeld cfg.op key f := by
+  cases f with
+  | ins k v ph => simp only [Frame.phase] at h; subst h; simp [Frame.setPhase, frameHeld, phaseHeld, onKey]
+  | tail ph => simp only [Frame.phase] at h; subst h; simp [Frame.setPhase, frameHeld, phaseHeld, onKey]
+  | fall i ph => simp only [Frame.phase] at h; subst h; simp [Frame.setPhase, frameHeld, phaseHeld, onKey]
+
+theorem frameHeld_ins_sent (k : Key) (v : V) (key : Key) :
+    frameHeld cfg.op key (.ins k v .sent) = onKey key k v := by simp [frameHeld, phaseHeld, onKey]
+theorem frameHeld_tail_sent (key : Key) : frameHeld cfg.op key (.tail .sent : Frame V) = none := rfl
+theorem frameHeld_tail_fin (key : Key) : frameHeld cfg.op key (.tail .fin : Frame V) = none := rfl
+theorem frameHeld_fall_sent (i : Nat) (key : Key) : frameHeld cfg.op key (.fall i .sent : Frame V) = none := rfl
+theorem frameHeld_fall_fin (i : Nat) (key : Key) : frameHeld cfg.op key (.fall i .fin : Frame V) = none := rfl
+
+/-- every transition conserves, per key: held after ⊕ packed = held before ⊕ received -/
+theorem step_held [Std.Associative cfg.op] [Std.Commutative cfg.op] (s s' : St V) (l : Label V) (hwf : WF cfg.nslots s.cache)
+    (h : step cfg s l = some s') (key : Key) :
+    omerge cfg.op (held cfg s' key) (emitOf key s l) = omerge cfg.op (held cfg s key) (recvOf key l) := by
+  obtain ⟨c, r, st⟩ := s
+  cases l with
+  | ins k v =>
+    simp only [step] at h
+    split at h
+    · split at h
+      · cases h
+        simp only [held_mk, stackHeld, frameHeld, phaseHeld, emitOf, recvOf, omerge_none_right]
+        show omerge cfg.op _ (omerge cfg.op (onKey key k v) _) = _
+        ac_rfl
+      · have hh := insLoop_held cfg c hwf k v key
+        rcases hp : insLoop cfg c k v with ⟨c', f⟩
+        rw [hp] at hh h
+        cases h
+        simp only [held_mk, stackHeld, emitOf, recvOf, omerge_none_right]
+        simp only at hh
+        rw [← omerge_assoc, hh]
+        ac_rfl
+    · cases h
+  | pack =>
+    simp only [step] at h
+    cases st with
+    | nil => simp at h
+    | cons f rest =>
+      simp only at h
+      cases hph : f.phase with
+      | pend m =>
+        rw [hph] at h; cases h
+        simp only [held_mk, stackHeld, emitOf, recvOf, pending, hph, omerge_none_right]
+        rw [← frameHeld_setPhase_sent cfg f m key hph]
+        ac_rfl
+      | sent => rw [hph] at h; cases h
+      | fin => rw [hph] at h; cases h
+  | ret =>
+    simp only [step] at h
+    split at h
+    · rename_i k v rest
+      have hh := insLoop_held cfg c hwf k v key
+      rcases hp : insLoop cfg c k v with ⟨c', f⟩
+      rw [hp] at hh h
+      cases h
+      simp only [held_mk, stackHeld, emitOf, recvOf, omerge_none_right, frameHeld_ins_sent]
+      simp only at hh
+      rw [← omerge_assoc, hh]
+      ac_rfl
+    · cases h
+      simp only [held_mk, stackHeld, emitOf, recvOf, omerge_none_right, frameHeld_tail_sent, frameHeld_tail_fin]
+    · rename_i i rest
+      have hh := fallLoop_held cfg c hwf i key
+      rcases hp : fallLoop cfg c i with ⟨c', f⟩
+      rw [hp] at hh h
+      cases h
+      simp only [held_mk, stackHeld, emitOf, recvOf, omerge_none_right, frameHeld_fall_sent, omerge_none_left]
+      simp only at hh
+      rw [← omerge_assoc, hh]
+    · cases h
+  | done =>
+    simp only [step] at h
+    split at h
+    · cases h
+      simp only [held_mk, stackHeld, emitOf, recvOf, omerge_none_right, frameHeld, phaseHeld, omerge_none_left]
+    · cases h
+  | fb =>
+    simp only [step] at h
+    split at h
+    · rename_i hc
+      have hst : st = [] := by
+        cases st with
+        | nil => rfl
+        | cons a b => simp at hc
+      subst hst
+      have hh := fallLoop_held cfg c hwf 0 key
+      rcases hp : fallLoop cfg c 0 with ⟨c', f⟩
+      rw [hp] at hh h
+      cases h
+      simp only [held_mk, stackHeld, emitOf, recvOf, omerge_none_right]
+      simp only at hh
+      exact hh
+    · cases h
+  | fe =>
+    simp only [step] at h
+    split at h
+    · cases h
+      simp only [held_mk, stackHeld, emitOf, recvOf, omerge_none_right, frameHeld, phaseHeld, omerge_none_left]
+    · cases h
+
+theorem step_wf (s s' : St V) (l : Label V) (hwf : WF cfg.nslots s.cache)
+    (h : step cfg s l = some s') : WF cfg.nslots s'.cache := by
+  obtain ⟨c, r, st⟩ := s
+  cases l with
+  | ins k v =>
+    simp only [step] at h
+    split at h
+    · split at h
+      · cases h; exact hwf
+      · have hh := insLoop_wf cfg c k v hwf
+        rcases hp : insLoop cfg c k v with ⟨c', f⟩
+        rw [hp] at hh h
+        cases h; exact hh
+    · cases h
+  | pack =>
+    simp only [step] at h
+    cases st with
+    | nil => simp at h
+    | cons f rest =>
+      simp only at h
+      cases hph : f.phase <;> rw [hph] at h <;> cases h
+      exact hwf
+  | ret =>
+    simp only [step] at h
+    split at h
+    · rename_i k v rest
+      have hh := insLoop_wf cfg c k v hwf
+      rcases hp : insLoop cfg c k v with ⟨c', f⟩
+      rw [hp] at hh h
+      cases h; exact hh
+    · cases h; exact hwf
+    · rename_i i rest
+      have hh := fallLoop_wf cfg c i hwf
+      rcases hp : fallLoop cfg c i with ⟨c', f⟩
+      rw [hp] at hh h
+      cases h; exact hh
+    · cases h
+  | done =>
+    simp only [step] at h
+    split at h
+    · cases h; exact hwf
+    · cases h
+  | fb =>
+    simp only [step] at h
+    split at h
+    · have hh := fallLoop_wf cfg c 0 hwf
+      rcases hp : fallLoop cfg c 0 with ⟨c', f⟩
+      rw [hp] at hh h
+      cases h; exact hh
+    · cases h
+  | fe =>
+    simp only [step] at h
+    split at h
+    · cases h; exact hwf
+    · cases h
+
+end Step
+
+
+/-! ### runs -/
+
+section Run
+variable {V : Type} (cfg : Cfg V)
+
+theorem run_cons (s : St V) (l : Label V) (ls : List (Label V)) (s' : St V)
+    (h : run cfg s (l :: ls) = some s') : ∃ s₁, step cfg s l = some s₁ ∧ run cfg s₁ ls = some s' := by
+  simp only [run] at h
+  cases hs : step cfg s l with
+  | none => rw [hs] at h; cases h
+  | some s₁ => rw [hs] at h; exact ⟨s₁, rfl, h⟩
+
+theorem run_append (s : St V) (l₁ l₂ : List (Label V)) :
+    run cfg s (l₁ ++ l₂) = (run cfg s l₁).bind (fun s₁ => run cfg s₁ l₂) := by
+  induction l₁ generalizing s with
+  | nil => rfl
+  | cons l ls ih =>
+    simp only [List.cons_append, run]
+    cases step cfg s l with
+    | none => rfl
+    | some s₁ => exact ih s₁
+
+theorem run_wf (s s' : St V) (ls : List (Label V)) (hwf : WF cfg.nslots s.cache)
+    (h : run cfg s ls = some s') : WF cfg.nslots s'.cache := by
+  induction ls generalizing s with
+  | nil => simp only [run] at h; cases h; exact hwf
+  | cons l ls ih =>
+    obtain ⟨s₁, h1, h2⟩ := run_cons cfg s l ls s' h
+    exact ih s₁ (step_wf cfg s s₁ l hwf h1) h2
+
+theorem emitted_cons_total [Std.Associative cfg.op] [Std.Commutative cfg.op] (s s₁ : St V) (l : Label V) (ls : List (Label V)) (h : step cfg s l = some s₁) (key : Key) :
+    total cfg.op (msgValsOf key (emitted cfg s (l :: ls)))
+      = omerge cfg.op (emitOf key s l) (total cfg.op (msgValsOf key (emitted cfg s₁ ls))) := by
+  simp only [emitted, h]
+  cases l <;> simp only [emitOf, omerge_none_left]
+  cases hp : pending s with
+  | none => simp
+  | some m => simp only [total_msgValsOf_cons]
+
+theorem received_cons_total [Std.Associative cfg.op] [Std.Commutative cfg.op] (l : Label V) (ls : List (Label V)) (key : Key) :
+    total cfg.op (valsOf key (received (l :: ls)))
+      = omerge cfg.op (recvOf key l) (total cfg.op (valsOf key (received ls))) := by
+  cases l <;> simp only [received, recvOf, omerge_none_left]
+  exact total_valsOf_cons _ _ _ _ _
+
+/-- ledger along a run: held at the end ⊕ everything packed = held at the start ⊕ everything received -/
+theorem run_ledger [Std.Associative cfg.op] [Std.Commutative cfg.op] (s s' : St V) (ls : List (Label V)) (hwf : WF cfg.nslots s.cache)
+    (h : run cfg s ls = some s') (key : Key) :
+    omerge cfg.op (held cfg s' key) (total cfg.op (msgValsOf key (emitted cfg s ls)))
+      = omerge cfg.op (held cfg s key) (total cfg.op (valsOf key (received ls))) := by
+  induction ls generalizing s with
+  | nil => simp only [run] at h; cases h; simp [emitted, received]
+  | cons l ls ih =>
+    obtain ⟨s₁, h1, h2⟩ := run_cons cfg s l ls s' h
+    have ih' := ih s₁ (step_wf cfg s s₁ l hwf h1) h2
+    have hs := step_held cfg s s₁ l hwf h1 key
+    rw [emitted_cons_total cfg s s₁ l ls h1, received_cons_total]
+    calc omerge cfg.op (held cfg s' key) (omerge cfg.op (emitOf key s l) (total cfg.op (msgValsOf key (emitted cfg s₁ ls))))
+        = omerge cfg.op (omerge cfg.op (held cfg s' key) (total cfg.op (msgValsOf key (emitted cfg s₁ ls)))) (emitOf key s l) := by ac_rfl
+      _ = omerge cfg.op (omerge cfg.op (held cfg s₁ key) (emitOf key s l)) (total cfg.op (valsOf key (received ls))) := by rw [ih']; ac_rfl
+      _ = omerge cfg.op (held cfg s key) (omerge cfg.op (recvOf key l) (total cfg.op (valsOf key (received ls)))) := by rw [hs]; ac_rfl
+
+theorem held_init (key : Key) : held cfg (St.init : St V) key = none := rfl
+
+theorem held_quiet (s : St V) (h : quiet s) (key : Key) : held cfg s key = none := by
+  obtain ⟨h1, h2⟩ := h
+  unfold held cachedOf; rw [h1, h2]; rfl
+
+end Run
+
+/-! ### the flag invariant: nothing cached without a registered callback -/
+
+section Flag
+variable {V : Type} (cfg : Cfg V)
+
+def InRange (n : Nat) (c : CMap V) : Prop := ∀ t e, c.get t = some e → t < n
+def Tails (l : List (Frame V)) : Prop := ∀ f ∈ l, ∃ ph, f = Frame.tail ph
+def Below (c : CMap V) (i : Nat) : Prop := ∀ t, t < i → c.get t = none
+
+/-- with no callback registered, only bypass sends can be active, on top of at most one
+flush-all loop that has left everything below its index empty -/
+def FlagInv (s : St V) : Prop :=
+  s.reg = false → ∃ ts, Tails ts ∧
+    ((s.stack = ts ∧ cacheEmpty s.cache) ∨
+     (∃ i ph, s.stack = ts ++ [Frame.fall i ph] ∧ Below s.cache i ∧ (ph = Phase.fin → cacheEmpty s.cache)))
+
+theorem InRange.clear {n : Nat} {c : CMap V} (h : InRange n c) (s : Nat) : InRange n (c.clear s) := by
+  intro t e ht
+  by_cases hts : t = s
+  · subst hts; rw [CMap.get_clear_self] at ht; cases ht
+  · rw [CMap.get_clear_ne c hts] at ht; exact h t e ht
+
+theorem InRange.set {n : Nat} {c : CMap V} (h : InRange n c) (hn : 0 < n) (k : Key) (e : Key × V) :
+    InRange n (c.set (k % n) e) := by
+  intro t e' ht
+  by_cases hts : t = k % n
+  · subst hts; exact Nat.mod_lt _ hn
+  · rw [CMap.get_set_ne c _ hts] at ht; exact h t e' ht
+
+theorem insLoop_inRange (hn : 0 < cfg.nslots) (c : CMap V) (k : Key) (v : V) (h : InRange cfg.nslots c) :
+    InRange cfg.nslots (insLoop cfg c k v).1 := by
+  have henter : ∀ w, InRange cfg.nslots (enter cfg c k w).1 := by
+    intro w; unfold enter
+    by_cases hf : cfg.full w = true
+    · rw [if_pos hf]; exact h.clear _
+    · rw [if_neg hf]; exact h.set hn k _
+  unfold insLoop
+  cases hg : c.get (slot cfg k) with
+  | none => exact henter v
+  | some e =>
+    obtain ⟨k', v'⟩ := e
+    simp only []
+    by_cases hk : k' = k
+    · simp only [hk, if_true]; exact henter _
+    · simp only [hk, if_false]; exact h.clear _
+
+theorem fallLoop_inRange (c : CMap V) (i : Nat) (h : InRange cfg.nslots c) :
+    InRange cfg.nslots (fallLoop cfg c i).1 := by
+  unfold fallLoop
+  cases hn : nextOcc c i cfg.nslots with
+  | none => exact h
+  | some j =>
+    simp only []
+    cases hg : c.get j with
+    | none => exact h
+    | some e => obtain ⟨k, v⟩ := e; exact h.clear _
+
+/-- the flush-all loop head keeps "everything below the index is free" and ends only on an empty cache -/
+theorem fallLoop_flag (c : CMap V) (i : Nat) (hr : InRange cfg.nslots c) (hb : Below c i) :
+    ∃ j ph, (fallLoop cfg c i).2 = Frame.fall j ph ∧ Below (fallLoop cfg c i).1 j ∧
+      (ph = Phase.fin → cacheEmpty (fallLoop cfg c i).1) := by
+  have hfin : (∀ t, i ≤ t → t < cfg.nslots → c.get t = none) → cacheEmpty c := by
+    intro hnone t
+    cases hg : c.get t with
+    | none => rfl
+    | some e =>
+      have := hr t e hg
+      by_cases hti : t < i
+      · rw [hb t hti] at hg; cases hg
+      · rw [hnone t (by omega) this] at hg; cases hg
+  unfold fallLoop
+  cases hn : nextOcc c i cfg.nslots with
+  | none =>
+    have hempty := hfin (nextOcc_none c i _ hn)
+    exact ⟨cfg.nslots, .fin, rfl, fun t _ => hempty t, fun _ => hempty⟩
+  | some j =>
+    obtain ⟨h1, h2, ⟨e, h3⟩, h4⟩ := nextOcc_some c i _ j hn
+    simp only []
+    rw [h3]
+    obtain ⟨k, v⟩ := e
+    refine ⟨j + 1, _, rfl, ?_, fun h => by cases h⟩
+    intro t ht
+    by_cases htj : t = j
+    · subst htj; exact CMap.get_clear_self c t
+    · rw [CMap.get_clear_ne c htj]
+      by_cases hti : t < i
+      · exact hb t hti
+      · exact h4 t (by omega) (by omega)
+
+theorem step_inRange (hn : 0 < cfg.nslots) (s s' : St V) (l : Label V) (hr : InRange cfg.nslots s.cache)
+    (h : step cfg s l = some s') : InRange cfg.nslots s'.cache := by
+  obtain ⟨c, r, st⟩ := s
+  cases l with
+  | ins k v =>
+    simp only [step] at h
+    split at h
+    · split at h
+      · cases h; exact hr
+      · have hh := insLoop_inRange cfg hn c k v hr
+        rcases hp : insLoop cfg c k v with ⟨c', f⟩
+        rw [hp] at hh h
+        cases h; exact hh
+    · cases h
+  | pack =>
+    simp only [step] at h
+    cases st with
+    | nil => simp at h
+    | cons f rest =>
+      simp only at h
+      cases hph : f.phase <;> rw [hph] at h <;> cases h
+      exact hr
+  | ret =>
+    simp only [step] at h
+    split at h
+    · rename_i k v rest
+      have hh := insLoop_inRange cfg hn c k v hr
+      rcases hp : insLoop cfg c k v with ⟨c', f⟩
+      rw [hp] at hh h
+      cases h; exact hh
+    · cases h; exact hr
+    · rename_i i rest
+      have hh := fallLoop_inRange cfg c i hr
+      rcases hp : fallLoop cfg c i with ⟨c', f⟩
+      rw [hp] at hh h
+      cases h; exact hh
+    · cases h
+  | done =>
+    simp only [step] at h
+    split at h
+    · cases h; exact hr
+    · cases h
+  | fb =>
+    simp only [step] at h
+    split at h
+    · have hh := fallLoop_inRange cfg c 0 hr
+      rcases hp : fallLoop cfg c 0 with ⟨c', f⟩
+      rw [hp] at hh h
+      cases h; exact hh
+    · cases h
+  | fe =>
+    simp only [step] at h
+    split at h
+    · cases h; exact hr
+    · cases h
+
+end Flag
+
+
+section Flag2
+variable {V : Type} (cfg : Cfg V)
+
+/-- shape of the stack while no callback is registered -/
+theorem flag_top {ts : List (Frame V)} (hts : Tails ts) {f : Frame V} {rest : List (Frame V)} :
+    (f :: rest = ts → ∃ ph ts', f = Frame.tail ph ∧ rest = ts' ∧ ts = f :: ts' ∧ Tails ts') ∧
+    (∀ i ph, f :: rest = ts ++ [Frame.fall i ph] →
+      (ts = [] ∧ f = Frame.fall i ph ∧ rest = []) ∨
+      (∃ ph' ts', f = Frame.tail ph' ∧ ts = f :: ts' ∧ rest = ts' ++ [Frame.fall i ph] ∧ Tails ts')) := by
+  constructor
+  · intro h
+    subst h
+    obtain ⟨ph, hph⟩ := hts f (by simp)
+    exact ⟨ph, rest, hph, rfl, rfl, fun g hg => hts g (by simp [hg])⟩
+  · intro i ph h
+    cases ts with
+    | nil => simp at h; exact Or.inl ⟨rfl, h.1, h.2⟩
+    | cons t ts' =>
+      simp at h
+      obtain ⟨h1, h2⟩ := h
+      subst h1
+      obtain ⟨ph', hph'⟩ := hts f (by simp)
+      exact Or.inr ⟨ph', ts', hph', rfl, h2, fun g hg => hts g (by simp [hg])⟩
+
+theorem Tails.nil : Tails ([] : List (Frame V)) := fun _ hf => by cases hf
+
+theorem Tails.cons {ts : List (Frame V)} (h : Tails ts) (ph : Phase V) : Tails (Frame.tail ph :: ts) := by
+  intro f hf
+  simp at hf
+  cases hf with
+  | inl h1 => exact ⟨ph, h1⟩
+  | inr h1 => exact h f h1
+
+theorem step_flag (s s' : St V) (l : Label V) (hr : InRange cfg.nslots s.cache)
+    (hi : FlagInv s) (h : step cfg s l = some s') : FlagInv s' := by
+  obtain ⟨c, r, st⟩ := s
+  cases l with
+  | ins k v =>
+    simp only [step] at h
+    split at h
+    · split at h
+      · cases h
+        intro hreg
+        obtain ⟨ts, hts, hsh⟩ := hi hreg
+        refine ⟨Frame.tail (Phase.pend ⟨true, k, v⟩) :: ts, hts.cons _, ?_⟩
+        cases hsh with
+        | inl h1 => exact Or.inl ⟨by simp only at h1 ⊢; rw [h1.1], h1.2⟩
+        | inr h1 =>
+          obtain ⟨i, ph, h2, h3, h4⟩ := h1
+          exact Or.inr ⟨i, ph, by simp only at h2 ⊢; rw [h2]; rfl, h3, h4⟩
+      · rcases hp : insLoop cfg c k v with ⟨c', f⟩
+        rw [hp] at h
+        cases h
+        intro hreg; cases hreg
+    · cases h
+  | pack =>
+    simp only [step] at h
+    cases st with
+    | nil => simp at h
+    | cons f rest =>
+      simp only at h
+      cases hph : f.phase with
+      | pend m =>
+        rw [hph] at h; cases h
+        intro hreg
+        obtain ⟨ts, hts, hsh⟩ := hi hreg
+        cases hsh with
+        | inl h1 =>
+          obtain ⟨ph, ts', hf, hrest, hts', htl⟩ := (flag_top hts).1 h1.1
+          subst hf
+          refine ⟨Frame.tail Phase.sent :: ts', htl.cons _, Or.inl ⟨?_, h1.2⟩⟩
+          simp only [Frame.setPhase]; rw [hrest]
+        | inr h1 =>
+          obtain ⟨i, ph, h2, h3, h4⟩ := h1
+          cases (flag_top hts).2 i ph h2 with
+          | inl h5 =>
+            obtain ⟨h5a, h5b, h5c⟩ := h5
+            subst h5b
+            refine ⟨[], Tails.nil, Or.inr ⟨i, Phase.sent, ?_, h3, fun hh => by cases hh⟩⟩
+            simp only [Frame.setPhase, h5c, List.nil_append]
+          | inr h5 =>
+            obtain ⟨ph', ts', hf, hts', hrest, htl⟩ := h5
+            subst hf
+            refine ⟨Frame.tail Phase.sent :: ts', htl.cons _, Or.inr ⟨i, ph, ?_, h3, h4⟩⟩
+            simp only [Frame.setPhase, hrest]; rfl
+      | sent => rw [hph] at h; cases h
+      | fin => rw [hph] at h; cases h
+  | ret =>
+    simp only [step] at h
+    split at h
+    · -- an eviction loop is active: a callback is registered
+      rename_i k v rest
+      rcases hp : insLoop cfg c k v with ⟨c', f⟩
+      rw [hp] at h
+      cases h
+      intro hreg
+      obtain ⟨ts, hts, hsh⟩ := hi hreg
+      exfalso
+      cases hsh with
+      | inl h1 =>
+        obtain ⟨ph, ts', hf, _⟩ := (flag_top hts).1 h1.1
+        cases hf
+      | inr h1 =>
+        obtain ⟨i, ph, h2, _, _⟩ := h1
+        cases (flag_top hts).2 i ph h2 with
+        | inl h5 => cases h5.2.1
+        | inr h5 => obtain ⟨ph', ts', hf, _⟩ := h5; cases hf
+    · rename_i rest
+      cases h
+      intro hreg
+      obtain ⟨ts, hts, hsh⟩ := hi hreg
+      cases hsh with
+      | inl h1 =>
+        obtain ⟨ph, ts', hf, hrest, hts', htl⟩ := (flag_top hts).1 h1.1
+        exact ⟨Frame.tail Phase.fin :: ts', htl.cons _, Or.inl ⟨by simp only; rw [hrest], h1.2⟩⟩
+      | inr h1 =>
+        obtain ⟨i, ph, h2, h3, h4⟩ := h1
+        cases (flag_top hts).2 i ph h2 with
+        | inl h5 => cases h5.2.1
+        | inr h5 =>
+          obtain ⟨ph', ts', hf, hts', hrest, htl⟩ := h5
+          exact ⟨Frame.tail Phase.fin :: ts', htl.cons _, Or.inr ⟨i, ph, by simp only; rw [hrest]; rfl, h3, h4⟩⟩
+    · rename_i i rest
+      intro hreg
+      have hreg0 : r = false := by
+        rcases hp : fallLoop cfg c i with ⟨c', f⟩
+        rw [hp] at h; cases h; exact hreg
+      obtain ⟨ts, hts, hsh⟩ := hi hreg0
+      have hb : Below c i ∧ rest = [] := by
+        cases hsh with
+        | inl h1 =>
+          obtain ⟨ph, ts', hf, _⟩ := (flag_top hts).1 h1.1
+          cases hf
+        | inr h1 =>
+          obtain ⟨i', ph, h2, h3, h4⟩ := h1
+          cases (flag_top hts).2 i' ph h2 with
+          | inl h5 =>
+            obtain ⟨_, h5b, h5c⟩ := h5
+            cases h5b; exact ⟨h3, h5c⟩
+          | inr h5 => obtain ⟨ph', ts', hf, _⟩ := h5; cases hf
+      obtain ⟨j, ph, hf, hbel, hfin⟩ := fallLoop_flag cfg c i hr hb.1
+      rcases hp : fallLoop cfg c i with ⟨c', f⟩
+      rw [hp] at h hf hbel hfin
+      cases h
+      simp only at hf hbel hfin
+      refine ⟨[], Tails.nil, Or.inr ⟨j, ph, ?_, hbel, hfin⟩⟩
+      simp only [hf, hb.2, List.nil_append]
+    · cases h
+  | done =>
+    simp only [step] at h
+    split at h
+    · rename_i rest
+      cases h
+      intro hreg
+      obtain ⟨ts, hts, hsh⟩ := hi hreg
+      cases hsh with
+      | inl h1 =>
+        obtain ⟨ph, ts', hf, hrest, hts', htl⟩ := (flag_top hts).1 h1.1
+        exact ⟨ts', htl, Or.inl ⟨hrest, h1.2⟩⟩
+      | inr h1 =>
+        obtain ⟨i, ph, h2, h3, h4⟩ := h1
+        cases (flag_top hts).2 i ph h2 with
+        | inl h5 => cases h5.2.1
+        | inr h5 =>
+          obtain ⟨ph', ts', hf, hts', hrest, htl⟩ := h5
+          exact ⟨ts', htl, Or.inr ⟨i, ph, hrest, h3, h4⟩⟩
+    · cases h
+  | fb =>
+    simp only [step] at h
+    split at h
+    · obtain ⟨j, ph, hf, hbel, hfin⟩ := fallLoop_flag cfg c 0 hr (fun t ht => by omega)
+      rcases hp : fallLoop cfg c 0 with ⟨c', f⟩
+      rw [hp] at h hf hbel hfin
+      cases h
+      simp only at hf hbel hfin
+      intro _
+      refine ⟨[], Tails.nil, Or.inr ⟨j, ph, ?_, hbel, hfin⟩⟩
+      simp only [hf, List.nil_append]
+    · cases h
+  | fe =>
+    simp only [step] at h
+    split at h
+    · rename_i i rest
+      cases h
+      intro hreg
+      obtain ⟨ts, hts, hsh⟩ := hi hreg
+      cases hsh with
+      | inl h1 =>
+        obtain ⟨ph, ts', hf, _⟩ := (flag_top hts).1 h1.1
+        cases hf
+      | inr h1 =>
+        obtain ⟨i', ph, h2, h3, h4⟩ := h1
+        cases (flag_top hts).2 i' ph h2 with
+        | inl h5 =>
+          obtain ⟨_, h5b, h5c⟩ := h5
+          cases h5b
+          exact ⟨[], Tails.nil, Or.inl ⟨h5c, h4 rfl⟩⟩
+        | inr h5 => obtain ⟨ph', ts', hf, _⟩ := h5; cases hf
+    · cases h
+
+theorem flagInv_init : FlagInv (St.init : St V) := by
+  intro _
+  exact ⟨[], Tails.nil, Or.inl ⟨rfl, fun _ => rfl⟩⟩
+
+theorem run_flag (hn : 0 < cfg.nslots) (s s' : St V) (ls : List (Label V)) (hr : InRange cfg.nslots s.cache)
+    (hi : FlagInv s) (h : run cfg s ls = some s') : FlagInv s' ∧ InRange cfg.nslots s'.cache := by
+  induction ls generalizing s with
+  | nil => simp only [run] at h; cases h; exact ⟨hi, hr⟩
+  | cons l ls ih =>
+    simp only [run] at h
+    cases hs : step cfg s l with
+    | none => rw [hs] at h; cases h
+    | some s₁ =>
+      rw [hs] at h
+      exact ih s₁ (step_inRange cfg hn s s₁ l hr hs) (step_flag cfg s s₁ l hr hi hs) h
+
+end Flag2
+
+
+/-! ### the system of all ranks -/
+
+section NetLemmas
+variable {V : Type} (nc : NetCfg V)
+
+theorem heldAll_set [Std.Associative nc.op] [Std.Commutative nc.op] (ranks : List (St V)) (r : Nat) (s s' : St V)
+    (k : Key) (hget : ranks[r]? = some s) (e rc : Option V)
+    (h : omerge nc.op (held (nc.at 0) s' k) e = omerge nc.op (held (nc.at 0) s k) rc) :
+    omerge nc.op (heldAll nc (ranks.set r s') k) e = omerge nc.op (heldAll nc ranks k) rc := by
+  induction ranks generalizing r with
+  | nil => simp at hget
+  | cons a rs ih =>
+    cases r with
+    | zero =>
+      simp only [List.getElem?_cons_zero, Option.some.injEq] at hget
+      subst hget
+      simp only [heldAll, List.set_cons_zero, List.map_cons, ototal_cons]
+      calc omerge nc.op (omerge nc.op (held (nc.at 0) s' k) (ototal nc.op (rs.map fun s => held (nc.at 0) s k))) e
+          = omerge nc.op (omerge nc.op (held (nc.at 0) s' k) e) (ototal nc.op (rs.map fun s => held (nc.at 0) s k)) := by ac_rfl
+        _ = omerge nc.op (omerge nc.op (held (nc.at 0) a k) (ototal nc.op (rs.map fun s => held (nc.at 0) s k))) rc := by rw [h]; ac_rfl
+    | succ r =>
+      simp only [List.getElem?_cons_succ] at hget
+      have := ih r hget
+      simp only [heldAll, List.set_cons_succ, List.map_cons, ototal_cons] at this ⊢
+      rw [omerge_assoc, this, ← omerge_assoc]
+
+theorem flightTot_cons (d : Nat) (m : Msg V) (fl : List (Nat × Msg V)) (k : Key) :
+    flightTot nc ((d, m) :: fl) k = omerge nc.op (onKey k m.key m.val) (flightTot nc fl k) := by
+  simp only [flightTot, List.map_cons]; exact total_msgValsOf_cons _ _ _ _
+
+theorem flightTot_erase [Std.Associative nc.op] [Std.Commutative nc.op] (fl : List (Nat × Msg V)) (i d : Nat) (m : Msg V)
+    (k : Key) (h : fl[i]? = some (d, m)) :
+    flightTot nc fl k = omerge nc.op (onKey k m.key m.val) (flightTot nc (fl.eraseIdx i) k) := by
+  induction fl generalizing i with
+  | nil => simp at h
+  | cons a fl ih =>
+    cases i with
+    | zero =>
+      simp only [List.getElem?_cons_zero, Option.some.injEq] at h
+      subst h
+      simp only [List.eraseIdx_cons_zero]; exact flightTot_cons nc _ _ _ _
+    | succ i =>
+      simp only [List.getElem?_cons_succ] at h
+      obtain ⟨d', m'⟩ := a
+      simp only [List.eraseIdx_cons_succ, flightTot_cons]
+      rw [ih i h]; ac_rfl
+
+theorem storedOf_storeReduce (st : List (Key × V)) (k k' : Key) (v : V) :
+    storedOf k (storeReduce nc.op st k' v) = omerge nc.op (storedOf k st) (onKey k k' v) := by
+  induction st with
+  | nil => simp [storeReduce, storedOf, onKey]
+  | cons a st ih =>
+    obtain ⟨k'', w⟩ := a
+    simp only [storeReduce]
+    by_cases h1 : k'' = k'
+    · subst h1
+      simp only [if_true, storedOf, onKey]
+      by_cases h2 : k'' = k <;> simp [h2]
+    · simp only [h1, if_false, storedOf]
+      by_cases h2 : k'' = k
+      · have : k' ≠ k := by intro h; subst h; exact h1 h2
+        simp [h2, onKey_ne _ this]
+      · simp only [h2, if_false]; exact ih
+
+instance atAssoc [h : Std.Associative nc.op] (r : Nat) : Std.Associative (nc.at r).op := h
+instance atComm [h : Std.Commutative nc.op] (r : Nat) : Std.Commutative (nc.at r).op := h
+
+/-- `step_held` on rank `r`, stated with the rank-independent view of `held` -/
+theorem step_held_at [Std.Associative nc.op] [Std.Commutative nc.op] (r : Nat) (s s' : St V) (l : Label V)
+    (hwf : WF nc.nslots s.cache) (hs : step (nc.at r) s l = some s') (k : Key) :
+    omerge nc.op (held (nc.at 0) s' k) (emitOf k s l) = omerge nc.op (held (nc.at 0) s k) (recvOf k l) :=
+  step_held (nc.at r) s s' l hwf hs k
+
+/-- what a system label contributes for key `k` -/
+def userOf {V} (k : Key) : NetLabel V → Option V
+  | .user _ k' v => onKey k k' v
+  | _ => none
+
+/-- all slot arrays well formed -/
+def NetWF (n : Net V) : Prop := ∀ s ∈ n.ranks, WF nc.nslots s.cache
+
+theorem mem_set_of {α} {l : List α} {i : Nat} {a b : α} (h : b ∈ l.set i a) : b = a ∨ b ∈ l := by
+  induction l generalizing i with
+  | nil => simp at h
+  | cons x l ih =>
+    cases i with
+    | zero => simp only [List.set_cons_zero, List.mem_cons] at h ⊢; cases h with
+      | inl h => exact Or.inl h
+      | inr h => exact Or.inr (Or.inr h)
+    | succ i => simp only [List.set_cons_succ, List.mem_cons] at h ⊢; cases h with
+      | inl h => exact Or.inr (Or.inl h)
+      | inr h => cases ih h with
+        | inl h => exact Or.inl h
+        | inr h => exact Or.inr (Or.inr h)
+
+theorem mem_of_getElem? {α} {l : List α} {i : Nat} {a : α} (h : l[i]? = some a) : a ∈ l := by
+  induction l generalizing i with
+  | nil => simp at h
+  | cons x l ih =>
+    cases i with
+    | zero => simp at h; simp [h]
+    | succ i => simp only [List.getElem?_cons_succ] at h; exact List.mem_cons_of_mem _ (ih h)
+
+theorem netStep_wf (n n' : Net V) (l : NetLabel V) (hwf : NetWF nc n) (h : netStep nc n l = some n') : NetWF nc n' := by
+  have key : ∀ (r : Nat) (s s' : St V) (lab : Label V), n.ranks[r]? = some s → step (nc.at r) s lab = some s' →
+      ∀ t ∈ n.ranks.set r s', WF nc.nslots t.cache := by
+    intro r s s' lab hg hs t ht
+    cases mem_set_of ht with
+    | inl h1 => subst h1; exact step_wf (nc.at r) s t lab (hwf s (mem_of_getElem? hg)) hs
+    | inr h1 => exact hwf t h1
+  cases l with
+  | user r k v =>
+    simp only [netStep] at h
+    cases hg : n.ranks[r]? with
+    | none => rw [hg] at h; cases h
+    | some s =>
+      rw [hg] at h; simp only at h
+      cases hs : step (nc.at r) s (.ins k v) with
+      | none => rw [hs] at h; cases h
+      | some s' => rw [hs] at h; cases h; exact key r s s' _ hg hs
+  | deliver i =>
+    simp only [netStep] at h
+    cases hf : n.flight[i]? with
+    | none => rw [hf] at h; cases h
+    | some dm =>
+      obtain ⟨d, m⟩ := dm
+      rw [hf] at h; simp only at h
+      split at h
+      · cases h; exact hwf
+      · cases hg : n.ranks[d]? with
+        | none => rw [hg] at h; cases h
+        | some s =>
+          rw [hg] at h; simp only at h
+          cases hs : step (nc.at d) s (.ins m.key m.val) with
+          | none => rw [hs] at h; cases h
+          | some s' => rw [hs] at h; cases h; exact key d s s' _ hg hs
+  | loc r lab =>
+    cases lab with
+    | ins k v => simp [netStep] at h
+    | pack =>
+      simp only [netStep] at h
+      cases hg : n.ranks[r]? with
+      | none => rw [hg] at h; cases h
+      | some s =>
+        rw [hg] at h; simp only at h
+        cases hs : step (nc.at r) s .pack with
+        | none => rw [hs] at h; cases h
+        | some s' =>
+          rw [hs] at h; simp only at h
+          cases hp : pending s with
+          | none => rw [hp] at h; cases h; exact key r s s' _ hg hs
+          | some m => rw [hp] at h; cases h; exact key r s s' _ hg hs
+    | ret | done | fb | fe =>
+      simp only [netStep] at h
+      cases hg : n.ranks[r]? with
+      | none => rw [hg] at h; cases h
+      | some s =>
+        rw [hg] at h; simp only at h
+        split at h
+        · cases h
+        · rename_i s' hs
+          cases h; exact key r s s' _ hg hs
+
+/-- **every step of the system conserves, per key, stored ⊎ held everywhere ⊎ in flight**, and a
+contribution of the program adds exactly its value -/
+theorem netStep_ledger [Std.Associative nc.op] [Std.Commutative nc.op] (n n' : Net V) (l : NetLabel V)
+    (hwf : NetWF nc n) (h : netStep nc n l = some n') (k : Key) :
+    netHeld nc n' k = omerge nc.op (netHeld nc n k) (userOf k l) := by
+  cases l with
+  | user r k' v =>
+    simp only [netStep] at h
+    cases hg : n.ranks[r]? with
+    | none => rw [hg] at h; cases h
+    | some s =>
+      rw [hg] at h; simp only at h
+      cases hs : step (nc.at r) s (.ins k' v) with
+      | none => rw [hs] at h; cases h
+      | some s' =>
+        rw [hs] at h; cases h
+        have hh := step_held_at nc r s s' _ (hwf s (mem_of_getElem? hg)) hs k
+        simp only [emitOf, recvOf, omerge_none_right] at hh
+        have := heldAll_set nc n.ranks r s s' k hg none (onKey k k' v) (by simpa using hh)
+        simp only [omerge_none_right] at this
+        simp only [netHeld, userOf, this]
+        ac_rfl
+  | deliver i =>
+    simp only [netStep] at h
+    cases hf : n.flight[i]? with
+    | none => rw [hf] at h; cases h
+    | some dm =>
+      obtain ⟨d, m⟩ := dm
+      rw [hf] at h; simp only at h
+      have hfl := flightTot_erase nc n.flight i d m k hf
+      split at h
+      · cases h
+        simp only [netHeld, userOf, omerge_none_right, storedOf_storeReduce, hfl]
+        ac_rfl
+      · cases hg : n.ranks[d]? with
+        | none => rw [hg] at h; cases h
+        | some s =>
+          rw [hg] at h; simp only at h
+          cases hs : step (nc.at d) s (.ins m.key m.val) with
+          | none => rw [hs] at h; cases h
+          | some s' =>
+            rw [hs] at h; cases h
+            have hh := step_held_at nc d s s' _ (hwf s (mem_of_getElem? hg)) hs k
+            simp only [emitOf, recvOf, omerge_none_right] at hh
+            have := heldAll_set nc n.ranks d s s' k hg none (onKey k m.key m.val) (by simpa using hh)
+            simp only [omerge_none_right] at this
+            simp only [netHeld, userOf, omerge_none_right, this, hfl]
+            ac_rfl
+  | loc r lab =>
+    cases lab with
+    | ins k' v => simp [netStep] at h
+    | pack =>
+      simp only [netStep] at h
+      cases hg : n.ranks[r]? with
+      | none => rw [hg] at h; cases h
+      | some s =>
+        rw [hg] at h; simp only at h
+        cases hs : step (nc.at r) s .pack with
+        | none => rw [hs] at h; cases h
+        | some s' =>
+          rw [hs] at h; simp only at h
+          have hh := step_held_at nc r s s' _ (hwf s (mem_of_getElem? hg)) hs k
+          cases hp : pending s with
+          | none =>
+            rw [hp] at h; cases h
+            simp only [emitOf, hp, recvOf, omerge_none_right] at hh
+            have := heldAll_set nc n.ranks r s s' k hg none none (by simpa using hh)
+            simp only [omerge_none_right] at this
+            simp only [netHeld, userOf, omerge_none_right, this]
+          | some m =>
+            rw [hp] at h; cases h
+            simp only [emitOf, hp, recvOf, omerge_none_right] at hh
+            have := heldAll_set nc n.ranks r s s' k hg (onKey k m.key m.val) none (by simpa using hh)
+            simp only [omerge_none_right] at this
+            simp only [netHeld, userOf, omerge_none_right, flightTot_cons, ← this]
+            ac_rfl
+    | ret | done | fb | fe =>
+      simp only [netStep] at h
+      cases hg : n.ranks[r]? with
+      | none => rw [hg] at h; cases h
+      | some s =>
+        rw [hg] at h; simp only at h
+        split at h
+        · cases h
+        · rename_i s' hs
+          cases h
+          have hh := step_held_at nc r s s' _ (hwf s (mem_of_getElem? hg)) hs k
+          simp only [emitOf, recvOf, omerge_none_right] at hh
+          have := heldAll_set nc n.ranks r s s' k hg none none (by simpa using hh)
+          simp only [omerge_none_right] at this
+          simp only [netHeld, userOf, omerge_none_right, this]
+
+theorem userContribs_cons_total (l : NetLabel V) (ls : List (NetLabel V)) (k : Key) :
+    total nc.op (valsOf k (userContribs (l :: ls))) = omerge nc.op (userOf k l) (total nc.op (valsOf k (userContribs ls))) := by
+  cases l <;> simp only [userContribs, userOf, omerge_none_left]
+  exact total_valsOf_cons _ _ _ _ _
+
+theorem heldAll_quiet (ranks : List (St V)) (h : ∀ s ∈ ranks, quiet s) (k : Key) : heldAll nc ranks k = none := by
+  induction ranks with
+  | nil => rfl
+  | cons a rs ih =>
+    simp only [heldAll, List.map_cons, ototal_cons]
+    rw [held_quiet _ a (h a (by simp))]
+    simp only [omerge_none_left]
+    exact ih (fun s hs => h s (by simp [hs]))
+
+end NetLemmas
 
 end YgmVerif.Cache
